@@ -306,6 +306,30 @@ func c13Defects() []c13Defect {
 			}
 			return rep(b, b.host+"e"), true // last label 59 -> 60 bytes: only the total length is at fault
 		}},
+		{"IPv4 last part in hexadecimal", func(b c13Base) (string, bool) {
+			i := strings.LastIndexByte(b.host, '.')
+			if b.kind != "ipv4" || b.scheme == "https" {
+				return "", false
+			}
+			var n int
+			fmt.Sscan(b.host[i+1:], &n)
+			return rep(b, fmt.Sprintf("%s0x%x", b.host[:i+1], n)), true
+		}},
+		{"IPv4 as one hexadecimal number", func(b c13Base) (string, bool) {
+			if b.kind != "ipv4" || b.scheme == "https" {
+				return "", false
+			}
+			var p [4]int
+			fmt.Sscanf(b.host, "%d.%d.%d.%d", &p[0], &p[1], &p[2], &p[3])
+			return rep(b, fmt.Sprintf("0x%02x%02x%02x%02x", p[0], p[1], p[2], p[3])), true
+		}},
+		{"IPv4 with three parts", func(b c13Base) (string, bool) {
+			i := strings.LastIndexByte(b.host, '.')
+			if b.kind != "ipv4" || b.scheme == "https" {
+				return "", false
+			}
+			return rep(b, b.host[:i]), true
+		}},
 		{"IPv6 expanded", func(b c13Base) (string, bool) {
 			if b.host != "[::1]" {
 				return "", false
